@@ -36,7 +36,7 @@ Init == /\ \E S \in {T \in SUBSET Key : Cardinality(T) <= MaxRecords} :
              /\ hist = IF Record THEN <<[ev |-> "Prefill", keys |-> S]>> ELSE <<>>
         /\ bad = {} /\ n = 0
 
-Base(ev) == [ev |-> ev, s |-> st, r |-> 0, g |-> g, g2 |-> 0, rb |-> 0, k |-> 0, v |-> 0, i |-> 0, ni |-> 0, rg |-> 0]
+Base(ev) == [ev |-> ev, s |-> st, r |-> 0, g |-> g, g2 |-> 0, rb |-> 0, k |-> 0, v |-> 0, i |-> 0, ni |-> 0, rg |-> 0, thr |-> Threshold]
 
 Step(x0) ==
     \E r \in ModelResults(x0) :
